@@ -446,6 +446,9 @@ class BycycleGroup(BycycleBase):
         for dim0, sig in enumerate(self.sigs):
             if self.n_dims == 3:
                 for dim1 in range(len(sig)):
+                    # Use the group's current thresholds, they may have been reassigned since fitting
+                    self.models[dim0][dim1].thresholds = self.thresholds
                     self.models[dim0][dim1].recompute_edges(reduction)
             else:
+                 self.models[dim0].thresholds = self.thresholds
                  self.models[dim0].recompute_edges(reduction)
